@@ -138,14 +138,18 @@ def fam_mha(st, probe):
     fam = "mha"
     n = 36 if ctx.tier == "quick" else 320
     fired_n = corr_n = 0
-    for i in range(n):
+    # always present: every comparison of the mask's leading dims (1 | B, 1 | H with B != H, both > 1), dim 2 (S | 1) and a 2-D mask
+    forced = [[1, 3, 3, 3], [2, 3, 3, 3], [2, 1, 1, 3], [2, 3, 1, 3], [3, 3], [1, 3]]
+    for i in range(n + len(forced)):
         B, S, H = rng.randrange(1, 4), rng.randrange(1, 5), rng.randrange(1, 5)
+        if i >= n:
+            B, S, H = 2, 3, 3
         Dh = pick(rng, [1, 2, 4, 8, 16])
         p = dict(dtype=pick(rng, ["float32", "float32", "float16"]), B=B, S=S, H=H, Dh=Dh, key_kind=pick(rng, ["T", "T", "BSHd"]),
                  scale=pick(rng, [("qk", "Mul"), ("qk", "Div"), ("q", "Mul"), None]), reshape=pick(rng, ["zero", "zero", "static", "minus1"]))
         if rng.random() < 0.3:
             p["scale_value"] = pick(rng, [0.2, 0.5])        # a non-default scale must reach the fused node
-        mode = i % 3
+        mode = i % 3 if i < n else 0
         T = S
         if mode == 1:
             p["past"] = rng.randrange(1, 4)
@@ -170,6 +174,8 @@ def fam_mha(st, probe):
             p["mask"] = pick(rng, [[B, 1, S, T], [1, 1, S, T], [B, H, S, T], [1, H, S, T], [S, T], [1, T], [B, 1, 1, T], [1, 1, 1, T], [B, H, 1, T]])
         r = rng.random()
         finding = None
+        if i >= n:
+            r, decl, p["decl"], p["mask"] = 1.0, {}, {}, forced[i - n]
         if r < 0.06:
             near, p["near"] = "out-perm", "out-perm"
         elif r < 0.12:
